@@ -8,3 +8,7 @@ import SpoxModel.Props.C16
 #print axioms C16.settings_restored_history
 #print axioms C16.inside_in_force
 #print axioms C16.pinned_counterexample
+#print axioms C16.write_sites_covered
+#print axioms C16.write_sites_defaults
+#print axioms C16.own_setting_restored_any_body
+#print axioms C16.settings_restored_any_body
